@@ -1,6 +1,118 @@
-import SR.Drv.Loop
-/-! Driver commands for C09 (stub). -/
+import SR.Drv.C06
+/-! Driver commands for C09 (all commands of C06 are available too).
+Model side: `reach` — the reachable set under STRUCTURAL identity (closed walk) with its crashed vectors and two
+crash-dependent verdicts. Oracle side: `o-crash` — the crash clauses of the property evaluated on the
+implementation's walk and handler-invocation log. -/
 namespace SR.Drv.C09
+open SR SR.Actor SR.Actor.Codec
+
+def bits (l : List Bool) : SExp := SExp.list (l.map fun b => SExp.atom (if b then "1" else "0"))
+
+/-- declarative effect of a crash (C09_effect) -/
+def crashSt (i : Nat) (st : USt) : USt :=
+  { st with crashed := st.crashed.set i true, timers := st.timers.set i [], random := st.random.set i [] }
+
+def actorOfAction : Action → Option Nat
+  | .deliver e => some e.dst
+  | .timeout i _ => some i
+  | .selectRandom i _ _ => some i
+  | .crash i => some i
+  | .drop _ => none
+
+structure Tr where
+  a : Action
+  res : SExp
+  log : List SExp
+
+def tr? : SExp → Option Tr
+  | .list [a, res, .list log] => do pure { a := ← action? a, res := res, log := log }
+  | _ => none
+
+def logActor : SExp → Option Nat
+  | .list (_ :: i :: _) => i.nat?
+  | _ => none
+
+def checkState (sys : USys) (states : Array USt) (recs : Array (List Tr)) (i : Nat) (st : USt) (rec : List Tr) : Option String := do
+  let k := sys.maxCrashes
+  -- C09_inv
+  if countCrashed st.crashed > k then some s!"state {i}: more than {k} actors crashed"
+  else if (List.range sys.n).any (fun j => st.crashed[j]? == some true && (st.timers[j]? != some [] || st.random[j]? != some [])) then
+    some s!"state {i}: a crashed actor still holds timers or pending choices"
+  else
+  -- C09_offered
+  let offered := rec.filterMap (fun t => match t.a with | .crash j => some j | _ => none)
+  let expected := (List.range sys.n).filter (fun j => st.crashed[j]? == some false && countCrashed st.crashed < k)
+  if offered != expected then some s!"state {i}: crash actions offered for {offered} but allowed for {expected}"
+  else
+  rec.findSome? fun t =>
+    -- C09_silent: nothing is ever handed to a crashed actor
+    if t.log.any (fun l => match logActor l with | some j => st.crashed[j]? == some true | none => false) then
+      some s!"state {i}: action {ofAction t.a} invoked a handler of a crashed actor"
+    else match t.a with
+    | .crash j =>
+      -- C09_effect, C09_distinct
+      match t.res.nat?.bind (states[·]?) with
+      | none => some s!"state {i}: crash {j} is not a step"
+      | some st' =>
+        if st' != crashSt j st then some s!"state {i}: crash {j} has the wrong effect"
+        else if st' == st then some s!"state {i}: crash {j} yields the same state"
+        else
+          -- C09_others: every step of another actor commutes with the crash
+          match t.res.nat?.bind (recs[·]?) with
+          | none => none      -- successor not expanded within the bound
+          | some rec' =>
+            rec.findSome? fun u =>
+              match u.a with
+              | .crash _ => none
+              | a =>
+                if actorOfAction a == some j then none else
+                match rec'.find? (fun u' => u'.a == a) with
+                | none => some s!"state {i}: after crash {j} the action {ofAction a} of another actor is no longer offered"
+                | some u' =>
+                  let exp : Option USt := (u.res.nat?.bind (states[·]?)).map (crashSt j)
+                  let got : Option USt := u'.res.nat?.bind (states[·]?)
+                  if exp != got then some s!"state {i}: after crash {j} the action {ofAction a} of another actor behaves differently"
+                  else none
+    | .deliver e =>
+      -- C09_silent / C09_undelivered
+      if st.crashed[e.dst]? == some true && t.res != .atom "-" then some s!"state {i}: delivery to crashed actor {e.dst} is a step"
+      else none
+    | .timeout j _ | .selectRandom j _ _ =>
+      if st.crashed[j]? == some true then some s!"state {i}: crashed actor {j} is offered {ofAction t.a}" else none
+    | .drop _ => none
+
+def oCrash (sys : USys) (states : Array USt) (recs : Array (List Tr)) : String := Id.run do
+  let mut i := 0
+  for rec in recs do
+    match states[i]? with
+    | none => return s!"bad record {i}"
+    | some st =>
+      match checkState sys states recs i st rec with
+      | some err => return err
+      | none => pure ()
+    i := i + 1
+  return "ok"
+
 def handle : Drv.Handler
-  | _, _ => none
+  | "reach", [sys, bound] => do
+    let sys ← sys? sys; let bound ← bound.nat?
+    match walk sys bound with
+    | none => pure "panic"
+    | some w =>
+      if w.records.size != w.states.size then pure "open"
+      else
+        let sts := w.states.toList
+        let vecs := (sts.map (·.crashed)).eraseDups
+        let keyOf := fun (l : List Bool) => l.map (fun b => if b then 1 else 0)
+        let vecs := vecs.mergeSort (fun a b => natsLe (keyOf a) (keyOf b))
+        let full := sts.any (fun s => countCrashed s.crashed == sys.maxCrashes)
+        let zero := sts.any (fun s => s.crashed[0]? == some true)
+        pure s!"closed {sts.length} {SExp.list (vecs.map bits)} {Drv.bstr full} {Drv.bstr zero}"
+  | "o-crash", [sys, states, recs] => do
+    let sys ← sys? sys
+    let states ← states.listOf? st?
+    let recs ← recs.listOf? (SExp.listOf? tr?)
+    pure (oCrash sys states.toArray recs.toArray)
+  | c, args => C06.handle c args
+
 end SR.Drv.C09
